@@ -73,7 +73,8 @@ def c07_prog(name, rng, force=None):
         dl = [("Clone(bound())" if t == "Clone" else t) for t in dl]
     elif bmode == "shared":
         dl = dl + ["bound()"]
-    head = "#[derive_ex::derive_ex(%s)]\n#[derive(Debug)]\n" % ", ".join(dl)
+    # a representation attribute of the user's: it must not change clone / clone_from
+    head = "#[derive_ex::derive_ex(%s)]\n#[derive(Debug)]\n%s" % (", ".join(dl), rng.choice(["", "", "#[repr(C)]\n", "#[repr(C)]\n", "#[repr(align(8))]\n"]))
     vattr = lambda: (rng.choice(["#[derive_ex(Clone(bound()))] ", "#[derive_ex(Clone, bound())] "]) if (bmode == "variant" and rng.random() < 0.7) else "")
     if is_enum:
         extra = ", #[doc(hidden)] Zl(core::marker::PhantomData<&'a ()>)" if with_lt else ""
@@ -505,6 +506,10 @@ impl S8 { pub fn default() -> S8 { S8(222) } pub fn into(self) -> S8 { S8(233) }
 impl Cc { pub fn into(self) -> S8 { S8(234) } }
 pub const C_U8: u8 = 41;
 pub const C_CC: Cc = Cc(3);
+/// converts through `Into` only (no `From<Io> for S8`): the documented conversion is `Into`
+pub struct Io(pub u8);
+impl Into<S8> for Io { fn into(self) -> S8 { S8(self.0 + 70) } }
+pub const C_IO: Io = Io(4);
 pub struct K;
 impl K { pub const V: u8 = 77; pub const W: Cc = Cc(9); }
 pub trait HasC { const V: u8; const W: Cc; const S: &'static str; }
@@ -520,6 +525,7 @@ pub const C_RR: &&u8 = &&U8_7;
 C11_FIELD_CASES = [
     ("u8", None, "<u8 as Default>::default()"), ("bool", None, "<bool as Default>::default()"), ("Option<u8>", None, "None"), ("S8", None, "<S8 as Default>::default()"),
     ("u8", "5", "5u8"), ("i16", "-5", "-5i16"), ("bool", "true", "true"), ("char", "'x'", "'x'"),
+    ("S8", "C_IO", "<Io as Into<S8>>::into(C_IO)"), ("S8", "crate::support::C_IO", "<Io as Into<S8>>::into(C_IO)"),
     ("S8", '"abc"', '<S8 as From<_>>::from("abc")'), ("u8", "C_U8", "C_U8"), ("S8", "C_CC", "<S8 as From<_>>::from(C_CC)"), ("u8", "K::V", "K::V"), ("S8", "K::W", "<S8 as From<_>>::from(K::W)"),
     ("u8", "mk8()", "mk8()"), ("S8", "mks()", "mks()"), ("u8", "{ 1 + 2 }", "3u8"), ("u8", "_", "<u8 as Default>::default()"), ("Option<u8>", "Some(4)", "Some(4)"),
     ("u8", "<K as HasC>::V", "<K as HasC>::V"), ("S8", "<K as HasC>::W", "<S8 as From<_>>::from(<K as HasC>::W)"), ("S8", "<K as HasC>::S", "<S8 as From<_>>::from(<K as HasC>::S)"), ("S8", "<K>::W", "<S8 as From<_>>::from(K::W)"),
